@@ -31,6 +31,8 @@ FILES = {   # library file -> checks that have to notice a defect in it
     "src/allocator.c": ["C09"],
 }
 
+QUICK = {"C01": 500000, "C02": 500000, "C03": 500000, "C04": 1000000, "C05": 500000, "C06": 1500000, "C07": 24000, "C08": 1000000, "C09": 1500000,
+         "C10": 2500000, "C11": 500000, "C12": 2500000, "C13": 1200000, "C17": 3000000, "C18": 1500000, "C19": 4000000}
 OPS = [  # (name, regex, replacement) - applied to one match on one line
     ("ror", r"(?<![<>=!-])<(?![<=])", "<="), ("ror", r"<=", "<"), ("ror", r"(?<![<>=!-])>(?![>=])", ">="), ("ror", r">=", ">"),
     ("ror", r"==", "!="), ("ror", r"!=", "=="),
@@ -92,11 +94,15 @@ def evaluate(job):
         run("rm -rf %s; rsync -a %s/build/main/ %s/" % (alt, ROOT, alt))
         env = dict(os.environ, UFW_SRC=scr, VERIF_BUILD=alt)
         caught = []
-        for c in checks:
-            rc, o = run("%s/check %s --tier quick --no-evidence --stop-early --shrink-budget 0 --jobs %d --replay-dir %s/replays" % (ROOT, c, jobs, alt), env=env, timeout=3600)
-            tags = sorted(set(re.findall(r"tag=(C[0-9]+:[^ ]+)", o)))
-            if rc == 1: caught.append({"check": c, "tags": tags[:4]}); break
-            if rc not in (0, 1): res.setdefault("errors", []).append({"check": c, "rc": rc, "tail": o[-300:]})
+        # two passes: a sixth of the quick tier's runs first (most mutants fall there), the full quick tier for what is left
+        for frac in (6, 1):
+            for c in checks:
+                runs = QUICK[c] // frac
+                rc, o = run("%s/check %s --tier quick --runs %d --no-evidence --stop-early --shrink-budget 0 --jobs %d --replay-dir %s/replays" % (ROOT, c, runs, jobs, alt), env=env, timeout=3600)
+                tags = sorted(set(re.findall(r"tag=(C[0-9]+:[^ ]+)", o)))
+                if rc == 1: caught.append({"check": c, "tags": tags[:4], "runs": runs}); break
+                if rc not in (0, 1): res.setdefault("errors", []).append({"check": c, "rc": rc, "tail": o[-300:]})
+            if caught: break
         res["verdict"] = "caught" if caught else "SURVIVED"
         res["caught_by"] = caught
         run("rm -rf %s %s.make.log" % (alt, alt))
